@@ -199,8 +199,11 @@ func one(k kase) result {
 }
 
 func run(args []string) error {
+	if len(args) >= 1 && args[0] == "real" {
+		return runReal(h.Flags(args[1:]))
+	}
 	if len(args) < 1 || args[0] != "replay" {
-		return fmt.Errorf("usage: C15 replay --in cases.ndjson --out res.ndjson")
+		return fmt.Errorf("usage: C15 replay|real --in cases.ndjson --out res.ndjson")
 	}
 	fl := h.Flags(args[1:])
 	var cases []kase
